@@ -103,18 +103,18 @@ type RawExpr struct {
 // AppCallE is a chain of program calls: @"p1"(args) | @"p2"(args)
 type AppCallE struct{ Calls []AppOne }
 type AppOne struct {
-	Name string
-	Args []Expr
+	Name  string
+	Args  []Expr
 	Ident bool // written as an identifier instead of a string literal
 }
 
 type Stmt interface{}
 
 type Define struct { // a, b := e1, e2   |  var a T = e | var a T
-	Names  []string
-	Vals   []Expr
-	VarKw  bool
-	Type   *Type
+	Names []string
+	Vals  []Expr
+	VarKw bool
+	Type  *Type
 }
 type Assign struct {
 	Names []string
@@ -221,8 +221,8 @@ type renderer struct {
 	parts []gosym.Str
 }
 
-func (r *renderer) w(s string)        { r.parts = append(r.parts, gosym.Conc(s)) }
-func (r *renderer) ws(s gosym.Str)     { r.parts = append(r.parts, s) }
+func (r *renderer) w(s string)     { r.parts = append(r.parts, gosym.Conc(s)) }
+func (r *renderer) ws(s gosym.Str) { r.parts = append(r.parts, s) }
 
 func MarkerText(k int) string { return strconv.Itoa(gosym.MarkerBase + k) }
 
@@ -616,32 +616,32 @@ const (
 type scope map[string]*RV
 
 type Interp struct {
-	C       *gosym.Ctx
-	Out     []gosym.Str // one entry per printed line (with trailing newline)
-	Exit    int64
-	Exited  bool
-	cur     *Module
-	mods    map[string]*Module
-	files   map[string]*Program
-	frames  [][]scope // call stack; each frame is a stack of block scopes
+	C      *gosym.Ctx
+	Out    []gosym.Str // one entry per printed line (with trailing newline)
+	Exit   int64
+	Exited bool
+	cur    *Module
+	mods   map[string]*Module
+	files  map[string]*Program
+	frames [][]scope // call stack; each frame is a stack of block scopes
 	// LazyRead is set when a statement reads a scalar variable and, later in the same statement, calls a function that
 	// assigns that variable (Go uses the value read first; the back-ends copy variable references into the emitted
 	// statement, so the script sees the new value - a recorded defect class of its own).
 	LazyRead bool
 	// BreakInSwitch is set when a break statement left a switch clause (Go: the switch ends, an enclosing loop goes on)
 	BreakInSwitch bool
-	curReads map[*RV]bool   // scalar variables read so far by the statement being evaluated
-	pending  []map[*RV]bool // per function call in progress: what its calling statement had read before the call
-	ctl     refCtl
-	rets    []RV
-	steps   int
-	Files   map[string]gosym.Str
-	Stdin   []gosym.Str
-	AppStub func(in *Interp, name string, args []gosym.Str, stdin gosym.Str) (gosym.Str, *sym.Term)
-	Trace   []string
-	MaxIter int
-	Bits    int // 0/64: 64-bit integers (Bash target); 32: integers wrap at 32 bits (Batch target)
-	topPseudo bool
+	curReads      map[*RV]bool   // scalar variables read so far by the statement being evaluated
+	pending       []map[*RV]bool // per function call in progress: what its calling statement had read before the call
+	ctl           refCtl
+	rets          []RV
+	steps         int
+	Files         map[string]gosym.Str
+	Stdin         []gosym.Str
+	AppStub       func(in *Interp, name string, args []gosym.Str, stdin gosym.Str) (gosym.Str, *sym.Term)
+	Trace         []string
+	MaxIter       int
+	Bits          int // 0/64: 64-bit integers (Bash target); 32: integers wrap at 32 bits (Batch target)
+	topPseudo     bool
 }
 
 func NewInterp(c *gosym.Ctx) *Interp {
@@ -767,7 +767,7 @@ func (in *Interp) block(body []Stmt, scoped bool) {
 
 func (in *Interp) boolOf(e Expr) *sym.Term { return in.eval(e).(RBool).T }
 func (in *Interp) intOf(e Expr) *sym.Term  { return in.eval(e).(RInt).T }
-func (in *Interp) strOf(e Expr) gosym.Str   { return in.eval(e).(RStr).S }
+func (in *Interp) strOf(e Expr) gosym.Str  { return in.eval(e).(RStr).S }
 
 func (in *Interp) fmtVal(v RV) gosym.Str {
 	B := in.C.B
